@@ -628,6 +628,11 @@ def groups(eng: Engine, ctx: Ctx, rid6: str, rid7: str, rid8: str, model: Decode
         if not oki:
             bad.setdefault("index discipline", []).append((des, f"push {len(pushes)} set {[show(s.term) for s in sets]} pop {len(pops)}"))
             continue
+        # push / pop balance on every exit: no return between the push and the pop (a level left on the stack shifts every later index)
+        early = [r for r in se.effects if r.kind in ("return",) and pushes[0].seq < r.seq < pops[0].seq]
+        if early:
+            bad.setdefault("index level left on the stack", []).append((des, f"return at line {getattr(early[0].node, 'lineno', 0)} after the level was pushed and before it is popped"))
+            continue
         # body: inner loop over the group dict calling the dispatcher with (name, dict, offset, index)
         inner = [e for e in se.effects if e.kind == "call" and len(e.loops) == 2 and e.loops[0] == lid and is_self_call(e.term, d.name)]
         okb = len(inner) == 1 and se.loop_info[inner[0].loops[1]].get("iter") == gd and inner[0].term[3][0] == ("elem", gd, inner[0].loops[1]) and inner[0].term[3][1] == gd
